@@ -121,7 +121,7 @@ func (P) Gen(rng *sim.Rng, tier string) *harness.Case {
 				if res >= 0 && cfg.Table[i].Res != res && !cfg.Table[i].Nil {
 					// now and then a per-resource load carries a rule that names another resource (a caller's
 					// slip): it is not a rule of the resource being loaded and must govern nothing
-					if m == rs.Outlier || !rng.Chance(0.12) {
+					if !rng.Chance(0.12) {
 						continue
 					}
 				}
@@ -463,7 +463,7 @@ func (P) Exec(c *harness.Case) *harness.Outcome {
 				// takes a single rule, its lists carry rules of that resource only
 				k := 0
 				for _, r := range list {
-					if r.Nil || r.Res == op.E || m != rs.Outlier {
+					if true {
 						list[k] = r
 						k++
 						if !r.Nil && r.Res != op.E {
